@@ -19,7 +19,13 @@ func ConfigYAML(c Case, root string, addr map[string]string) string {
 		b, _ := json.Marshal(s) // a JSON string is a valid YAML double-quoted scalar
 		return string(b)
 	}
-	sb.WriteString("version: 1\ncreds:\n")
+	if c.Conf.XExt {
+		sb.WriteString("x-c19-sched: &c19sched \"15 01 * * *\"\nx-note: {owner: c19, list: [1, 2]}\n")
+	}
+	if !c.Conf.NoVersion {
+		sb.WriteString("version: 1\n")
+	}
+	sb.WriteString("creds:\n")
 	names := make([]string, 0, len(addr))
 	for n := range addr {
 		names = append(names, n)
@@ -27,6 +33,14 @@ func ConfigYAML(c Case, root string, addr map[string]string) string {
 	sort.Strings(names)
 	for _, n := range names {
 		fmt.Fprintf(&sb, "  - registry: %s\n    hostname: %s\n    tls: disabled\n", n, str(addr[n]))
+		for _, hc := range c.Hosts {
+			if hc.Name == n && hc.User != "" {
+				fmt.Fprintf(&sb, "    user: %s\n    pass: %s\n", str(hc.User), str(hc.Pass))
+			}
+		}
+		if c.Conf.CredExtras && n != ProbeHost {
+			sb.WriteString("    repoAuth: false\n    blobChunk: 1048576\n    blobMax: -1\n    priority: 5\n")
+		}
 	}
 	sb.WriteString("defaults:\n")
 	if c.Parallel != 0 {
@@ -35,15 +49,39 @@ func ConfigYAML(c Case, root string, addr map[string]string) string {
 	if c.DefTimeout != "" {
 		fmt.Fprintf(&sb, "  timeout: %s\n", c.DefTimeout)
 	}
-	sb.WriteString("  skipDockerConfig: true\n")
+	if !c.Conf.LoadDockerConf {
+		sb.WriteString("  skipDockerConfig: true\n")
+	}
+	if c.Conf.UserAgent != "" {
+		fmt.Fprintf(&sb, "  userAgent: %s\n", str(c.Conf.UserAgent))
+	}
+	if c.Conf.BlobLimit != 0 {
+		fmt.Fprintf(&sb, "  blobLimit: %d\n", c.Conf.BlobLimit)
+	}
+	switch c.Conf.Sched {
+	case 1:
+		sb.WriteString("  interval: 60m\n")
+	case 2:
+		if c.Conf.XExt {
+			sb.WriteString("  schedule: *c19sched\n")
+		} else {
+			sb.WriteString("  schedule: \"15 3 * * *\"\n")
+		}
+	}
 	sb.WriteString("scripts:\n")
 	for i, s := range c.Scripts {
 		fmt.Fprintf(&sb, "  - name: %s\n", str(s.Name))
 		if s.Timeout != "" {
 			fmt.Fprintf(&sb, "    timeout: %s\n", s.Timeout)
 		}
+		if c.Conf.Sched == 1 && i%2 == 0 {
+			sb.WriteString("    interval: 12h\n")
+		}
+		if c.Conf.Sched == 2 && i%2 == 1 {
+			sb.WriteString("    schedule: \"0 * * * *\"\n")
+		}
 		lua := c.Render(i, root)
-		if c.YAMLStyle == 1 {
+		if c.YAMLStyle == 1 || lua == "" {
 			fmt.Fprintf(&sb, "    script: %s\n", str(lua))
 		} else {
 			sb.WriteString("    script: |\n")
